@@ -863,9 +863,11 @@ def _anchor(o):
 @rule("HV", ["C18", "C20", "C09"], "hybrid objects mirror their buffer data after every history of {set field, nested assignment, reference assignment, copy, move}")
 def hv(cx):
     m = cx.m
+    for _mod in ('hybrid_class', 'struct', 'array', 'ref', 'string', 'scalar', 'typeutils'):
+        m.mod(_mod)  # interpreted by the worker processes: recorded as consulted
     for q in ("hybrid_class::_FieldOfDressed.__set__", "hybrid_class::_FieldOfDressed.__get__", "hybrid_class::HybridClass.move", "hybrid_class::HybridClass.copy", "hybrid_class::HybridClass._reinit_from_xobject", "hybrid_class::MetaHybridClass.__new__"):
         m.func(q)
-    maxlen = 4 if cx.tier == "thorough" else 2
+    maxlen = 3 if cx.tier == "thorough" else 2
     hs = list(histories(maxlen))
     # C18 is decided on every history; for C20 / C09 the quick tier keeps the histories that end in the operation the
     # property is about (state round trip / copies and by-value assignments), after any first step
@@ -877,7 +879,7 @@ def hv(cx):
     if len(hs) > 60:
         from concurrent.futures import ProcessPoolExecutor
 
-        jobs = min(16, os.cpu_count() or 1)
+        jobs = int(os.environ.get("XOVERIF_JOBS", min(16, os.cpu_count() or 1)))
         chunks = [hs[i::jobs * 4] for i in range(jobs * 4)]
         with ProcessPoolExecutor(max_workers=jobs) as ex:
             for part in ex.map(_worker, [(m.root, c) for c in chunks if c]):
@@ -1129,12 +1131,14 @@ def jd(cx):
     scalars that differ from their declared default, leave the object unchanged, and from_dict() of that dictionary
     must give an object whose every scalar reads the original's value."""
     m = cx.m
+    for _mod in ('hybrid_class', 'struct', 'array', 'ref', 'string', 'scalar', 'typeutils'):
+        m.mod(_mod)  # interpreted by the worker processes: recorded as consulted
     for q in ("hybrid_class::HybridClass.to_dict", "hybrid_class::HybridClass.from_dict", "hybrid_class::HybridClass.xoinitialize", "struct::Field.get_default", "struct::Field.value_from_args"):
         m.func(q)
     cs = roundtrip_choices(cx.tier)
     from concurrent.futures import ProcessPoolExecutor
 
-    jobs = min(16, os.cpu_count() or 1)
+    jobs = int(os.environ.get("XOVERIF_JOBS", min(16, os.cpu_count() or 1)))
     chunks = [cs[i::jobs * 2] for i in range(jobs * 2)]
     results = []
     with ProcessPoolExecutor(max_workers=jobs) as ex:
